@@ -212,7 +212,7 @@ class Ctx:
         if m:
             gen, dist = int(m[-1][0]), int(m[-1][1])
         violated = None
-        mv = re.search(r"Invariant (\S+) is violated|Temporal properties were violated|Action property (\S+) is violated"
+        mv = re.search(r"Invariant (\S+) is violated|Temporal properties were violated|Temporal property (\S+) was violated|Action property (\S+) is violated"
                        r"|Deadlock reached|The postcondition.*is violated|Error: Evaluating invariant (\S+) failed", out)
         if mv:
             violated = next((g for g in mv.groups() if g), mv.group(0))
